@@ -1286,3 +1286,27 @@ package ro
 
 //@ loop zipAllInnerSubscriptions$1#0
 //@   iteration emits
+
+// Random sources: `count` readings of the random source, each delivered as it is drawn, then completion.
+
+//@ operator RandIntN
+//@   props C04 C09 C08 C12
+//@   track call.IntN
+//@   on subscribe(ctx, destination) : emits loop.L0, Complete(ctx)
+
+//@ loop RandIntN$1#0
+//@   noexit
+//@   invariant 0 <= i && (count < 0 || i <= count)
+//@   exit count <= 0 || i == count
+//@   iteration emits call.IntN(n), destination.NextWithContext(ctx, res(call.IntN))
+
+//@ operator RandFloat64
+//@   props C04 C09 C08 C12
+//@   track call.Float64
+//@   on subscribe(ctx, destination) : emits loop.L0, Complete(ctx)
+
+//@ loop RandFloat64$1#0
+//@   noexit
+//@   invariant 0 <= i && (count < 0 || i <= count)
+//@   exit count <= 0 || i == count
+//@   iteration emits call.Float64(), destination.NextWithContext(ctx, res(call.Float64))
